@@ -1,4 +1,4 @@
-\* every interleaving of <= 3 evaluations and <= 3 mutations over 6 tree shapes, attached and free
+\* every interleaving of <= 3 evaluations and <= 2 mutations over 6 tree shapes, attached and free
 CONSTANTS
   Trees <- c_Trees
   Slots = {"A", "B"}
@@ -6,8 +6,8 @@ CONSTANTS
   EvalKinds <- c_Evals
   Hows = {"move", "edit", "set"}
   MaxEval = 3
-  MaxMut = 3
-  MaxVer = 3
+  MaxMut = 2
+  MaxVer = 2
 INIT Init
 NEXT Next
 PROPERTY Prop_EvaluateIsPure
